@@ -402,3 +402,110 @@ for cls, key in (("Dense", "activation"), ("Conv2D", "activation"),
                   "activation_bits fallback), replayed in the design phase; "
                   "the other keys by reading the get_config(...) calls of "
                   "model_quantize"}
+
+# ---------------------------------------------------------------------- C12
+_MQ = "qkeras/utils.py::model_quantize"
+TRIAGE[("C12", "R6", _MQ, "raises:LeakyReLU:KeyError")] = {
+    "status": "fixed", "commit": "fb73ae4",
+    "what_fails": "the ReLU/LeakyReLU arm overwrote layer['class_name'] with "
+                  "'QActivation' before comparing it with 'LeakyReLU'/'relu', "
+                  "so a selected LeakyReLU layer ran the ReLU deletions",
+    "replayed": "model_quantize(Input->Dense->LeakyReLU, {'QActivation': "
+                "{'leakyrelu': 'quantized_relu(4,negative_slope=0.25)'}}, 4) "
+                "-> KeyError: 'max_value' before the fix"}
+TRIAGE[("C12", "R6", _MQ, "raises:MyLayer:UnboundLocalError")] = {
+    "status": "fixed", "commit": "1ecbab3",
+    "what_fails": "q_name was read for every layer with a registered_name "
+                  "but assigned only in some branches",
+    "replayed": "model_quantize(Input->MyLayer(registered)->Dense, {...}) -> "
+                "UnboundLocalError: q_name, before the fix"}
+TRIAGE[("C12", "R4", _MQ, "unselected-layer-changed:MyLayer")] = {
+    "status": "fixed", "commit": "1ecbab3",
+    "what_fails": "a stale q_name from the previously converted layer "
+                  "overwrote the registered_name of a custom layer that no "
+                  "branch converts",
+    "replayed": "rewritten JSON of Input->Dense->MyLayer had "
+                "('MyLayer', registered_name 'QDense') before the fix"}
+_SEP = {
+    "what_fails": "the SeparableConv1D/2D branch of model_quantize reads and "
+                  "writes 'kernel_quantizer', but QSeparableConv1D/2D take "
+                  "depthwise_quantizer / pointwise_quantizer: with the "
+                  "documented keys the layer is silently left unconverted, "
+                  "with kernel_quantizer the rebuilt layer rejects the key",
+    "replayed": "model_quantize on a SeparableConv2D model with "
+                "{'QSeparableConv2D': {'depthwise_quantizer': ..., "
+                "'pointwise_quantizer': ...}} leaves a plain SeparableConv2D "
+                "(replayed in the design phase); with 'kernel_quantizer' "
+                "deserialisation raises"}
+for c in ("class:sep->SeparableConv2D", "config:sep.depthwise_quantizer",
+          "config:sep.pointwise_quantizer", "config:sep.bias_quantizer"):
+  TRIAGE[("C12", "R7", _MQ, c)] = dict(_SEP)
+TRIAGE[("C12", "R1", _MQ,
+        "key-not-accepted:QSeparableConv1D:kernel_quantizer")] = dict(_SEP)
+for c in ("Conv2D", "DepthwiseConv2D"):
+  TRIAGE[("C12", "R4", _MQ, "unselected-folded-layer-changed:" + c)] = {
+      "what_fails": "with enable_bn_folding the folding arm stores "
+                    "use_bias=True, folding_mode and ema_freeze_delay into "
+                    "the layer config before it finds that no quantizer is "
+                    "configured and leaves the layer unconverted: the plain "
+                    "%s layer is rebuilt with a bias and unknown keys" % c,
+      "replayed": "argued from the statement order in the folding arm "
+                  "(layer_config['use_bias'] = True precedes the 'if "
+                  "kernel_quantizer is None: continue' bail-out)"}
+
+# ---------------------------------------------------------------------- C13
+_CO = "qkeras/utils.py::_add_supported_quantized_objects"
+for n in ("QDepthwiseConv2DTranspose", "QSeparableConv2DTranspose",
+          "quantized_hswish", "quantized_linear"):
+  TRIAGE[("C13", "R1", _CO, "missing-entry:" + n)] = {
+      "status": "fixed", "commit": "58c31c1",
+      "what_fails": "%s was not in the custom-object table, so a model using "
+                    "it could not be reloaded / cloned without user-supplied "
+                    "custom_objects" % n,
+      "replayed": "'%s' in the dictionary filled by "
+                  "_add_supported_quantized_objects({}) -> False before the "
+                  "fix, True after" % n}
+TRIAGE[("C13", "R2", "qkeras/qlayers.py::Clip",
+        "option-not-serialised:constraint")] = {
+    "what_fails": "Clip.get_config() returns only min_value / max_value: a "
+                  "wrapped constraint is lost when the layer config is "
+                  "saved (from_config then rebuilds Clip without it)",
+    "replayed": "Clip(0,1,constraint='non_neg',quantizer='quantized_bits(4)')"
+                ".get_config() -> {'min_value': 0, 'max_value': 1}"}
+TRIAGE[("C13", "R2", "qkeras/qlayers.py::Clip",
+        "option-not-serialised:quantizer")] = {
+    "what_fails": "Clip.get_config() omits the quantizer applied after the "
+                  "wrapped constraint",
+    "replayed": "same call as for `constraint`"}
+TRIAGE[("C13", "R2", "qkeras/qlayers.py::QAdaptiveActivation",
+        "option-not-serialised:relu_upper_bound")] = {
+    "what_fails": "QAdaptiveActivation.get_config() has no relu_upper_bound "
+                  "key although the constructor stores and uses it",
+    "replayed": "by reading QAdaptiveActivation.get_config (the layer cannot "
+                "be built under the pinned Keras 3)"}
+TRIAGE[("C13", "R2", "qkeras/qnormalization.py::QBatchNormalization",
+        "option-not-serialised:activation")] = {
+    "what_fails": "QBatchNormalization.__init__ accepts `activation` but "
+                  "neither forwards nor serialises it (the option is dead)",
+    "replayed": "by reading QBatchNormalization.__init__ / get_config"}
+TRIAGE[("C13", "R2", "qkeras/qconv2d_batchnorm.py::QConv2DBatchnorm",
+        "option-not-serialised:data_format")] = {
+    "what_fails": "QConv2DBatchnorm.__init__ accepts data_format but does "
+                  "not forward it to QConv2D.__init__, so the layer always "
+                  "uses the default and get_config reports the default",
+    "replayed": "by reading the super().__init__(...) call of "
+                "QConv2DBatchnorm (data_format is not among the keywords)"}
+for unit, opt in (
+    ("qkeras/qdepthwise_conv2d_transpose.py::QDepthwiseConv2DTranspose",
+     "depthwise_activation"),
+    ("qkeras/qseparable_conv2d_transpose.py::QSeparableConv2DTranspose",
+     "depthwise_activation"),
+    ("qkeras/qseparable_conv2d_transpose.py::QSeparableConv2DTranspose",
+     "pointwise_activation")):
+  TRIAGE[("C13", "R2", unit, "option-not-serialised:" + opt)] = {
+      "what_fails": "get_config() of the layer has no %r key although the "
+                    "constructor turns the option into an activation "
+                    "quantizer that call() applies: a reloaded layer runs "
+                    "without it" % opt,
+      "replayed": "by reading the config.update({...}) literal of the "
+                  "class's get_config"}
